@@ -7,6 +7,8 @@ import (
 	"net"
 
 	v1 "github.com/fatedier/frp/pkg/config/v1"
+	"github.com/fatedier/frp/pkg/msg"
+	"github.com/fatedier/frp/pkg/util/util"
 	"github.com/fatedier/frp/verif"
 )
 
@@ -172,3 +174,61 @@ func verif_VManager_Close(vm *Manager) {
 //verif:guarded QUICTunnelSession mu session listenConn
 //verif:sweep-type KCPTunnelSession props=C16 kinds=lock
 //verif:sweep-type QUICTunnelSession props=C16 kinds=lock
+
+// ---------------------------------------------------------------- C08 / C05 / C01: the stcp visitor's side of a secret tunnel
+
+// The helper (connection to the server, run id) is the control's: unknown code
+// here. Assumed frame (listed): it does not touch the visitor's configuration.
+//
+//verif:contract (~/client/visitor.Helper).ConnectServer
+//verif:trusted
+//verif:modifies *
+//verif:preserves H.client.visitor.STCPVisitor. H.client.visitor.BaseVisitor. H.pkg.config.v1.
+func verif_Helper_ConnectServer(h Helper) {
+	c, err := h.ConnectServer()
+	verif.Ensures(err != nil || c != nil, "connection_or_error")
+}
+
+//verif:getter (~/client/visitor.Helper).RunID
+
+// handleConn: the visitor asks for the secret proxy it is configured for,
+// proving knowledge of the secret key by the keyed digest of key and timestamp
+// (never the key itself) and declaring exactly the encryption / compression it
+// will use; only after the server agreed is the user connection joined, through
+// encryption keyed by the secret key directly on the visitor connection iff
+// configured and compression directly above iff configured - the stack the
+// server builds for the same declaration (server/visitor NewConn). Both
+// connections are closed on every path.
+//
+//verif:contract (*~/client/visitor.STCPVisitor).handleConn
+//verif:props C08 C05 C01
+func verif_STCPVisitor_handleConn(sv *STCPVisitor, userConn net.Conn) {
+	verif.Requires(sv.cfg != nil && sv.BaseVisitor != nil, "constructed_by_NewVisitor")
+	enc, comp, key, name := sv.cfg.Transport.UseEncryption, sv.cfg.Transport.UseCompression, sv.cfg.SecretKey, sv.cfg.ServerName
+	verif.ResetEvents()
+	sv.handleConn(userConn)
+	verif.Ensures(verif.CalledWith("Conn).Close", 0, userConn), "user_connection_closed_on_every_path")
+	const evJoin, evEnc, evComp, evAsk = "golib/io.Join", "golib/io.WithEncryption", "golib/io.WithCompressionFromPool", "msg.WriteMsg"
+	if verif.Called(evAsk) {
+		m, isAsk := verif.NthArg[msg.Message](evAsk, 0, 1).(*msg.NewVisitorConn)
+		verif.Ensures(isAsk && m.ProxyName == name && m.SignKey == util.GetAuthKey(key, m.Timestamp) && m.UseEncryption == enc && m.UseCompression == comp, "request_signed_for_the_configured_proxy_and_declares_the_layers")
+	}
+	if verif.Called(evJoin) {
+		vc := verif.Ret[net.Conn]("Helper).ConnectServer", 0)
+		verif.Ensures(verif.RetErr(evAsk, 0) == nil && verif.RetErr("msg.ReadMsgInto", 0) == nil, "joined_only_after_the_server_agreed")
+		verif.Ensures(verif.Called(evEnc) == enc && verif.Called(evComp) == comp, "layers_iff_configured")
+		var below any = vc
+		if enc {
+			verif.Ensures(verif.Same(verif.NthArg[any](evEnc, 0, 0), below) && verif.CalledWith(evEnc, 1, []byte(key)), "encryption_directly_on_the_visitor_connection_keyed_by_the_secret")
+			below = verif.Ret[any](evEnc, 0)
+		}
+		if comp {
+			verif.Ensures(verif.Same(verif.NthArg[any](evComp, 0, 0), below), "compression_directly_above")
+			below = verif.Ret[any](evComp, 0)
+		}
+		verif.Ensures(verif.Same(verif.NthArg[any](evJoin, 0, 0), any(userConn)) && verif.Same(verif.NthArg[any](evJoin, 0, 1), below) && verif.CallCount(evJoin) == 1, "user_connection_joined_once_with_the_top_of_the_stack")
+	}
+	if verif.Called("Helper).ConnectServer") && verif.RetErr("Helper).ConnectServer", 1) == nil {
+		verif.Ensures(verif.CalledWith("Conn).Close", 0, verif.Ret[net.Conn]("Helper).ConnectServer", 0)), "visitor_connection_closed_when_done")
+	}
+}
